@@ -203,7 +203,11 @@ def run_parallel(ck, fn, items, jobs=None):
             raise HarnessError(f"worker for {it} failed: {st['error']}")
         ck.obligations += st["obligations"]
         ck.discharged += st["discharged"]
-        ck.inconclusive += st["inconclusive"]
+        for name in st["inconclusive"]:
+            if name in ck.inconclusive:
+                ck.obligations -= 1        # the same obligation reported by several workers counts once
+            else:
+                ck.inconclusive.append(name)
         ck.samples += st["samples"]
         ck.queries += st["queries"]
         ck.solver_time += st["solver_time"]
